@@ -116,6 +116,60 @@ def is_lp(v):
 # scalar arithmetic
 
 
+def _flatten_muldiv(t, num, den, coef):
+    """t = coef * prod(num) / prod(den); only re-associates products and quotients (never cancels a symbolic
+    factor against a divisor, which would be unsound when the divisor may be zero)."""
+    if z3.is_rational_value(t):
+        coef[0] *= Fraction(t.numerator_as_long(), t.denominator_as_long())
+        return
+    k = t.decl().kind() if z3.is_app(t) else None
+    if k == z3.Z3_OP_MUL:
+        for c in t.children():
+            _flatten_muldiv(c, num, den, coef)
+        return
+    if k == z3.Z3_OP_DIV:
+        a, b = t.children()
+        _flatten_muldiv(a, num, den, coef)
+        # divisor: a product of atoms / numerals goes to the denominator (numerals must be non-zero)
+        dn, dd, dc = [], [], [Fraction(1)]
+        _flatten_muldiv(b, dn, dd, dc)
+        if dd or dc[0] == 0:
+            den.append(b)  # divisor itself contains a quotient or a zero numeral: keep it as one atom
+        else:
+            coef[0] /= dc[0]
+            den.extend(dn)
+        return
+    if k == z3.Z3_OP_UMINUS:
+        coef[0] = -coef[0]
+        _flatten_muldiv(t.arg(0), num, den, coef)
+        return
+    num.append(t)
+
+
+def norm_muldiv(t):
+    """Canonical shape of a real product/quotient term: coefficient * sorted numerator atoms / sorted divisor atoms."""
+    if not (z3.is_app(t) and t.decl().kind() in (z3.Z3_OP_MUL, z3.Z3_OP_DIV)) or not z3.is_real(t):
+        return t
+    num, den, coef = [], [], [Fraction(1)]
+    _flatten_muldiv(t, num, den, coef)
+    if coef[0] == 0:
+        return z3.RealVal(0)
+    num.sort(key=lambda x: x.get_id())
+    den.sort(key=lambda x: x.get_id())
+    out = None
+    for x in num:
+        out = x if out is None else out * x
+    if coef[0] != 1 or out is None:
+        c = z3.RealVal(coef[0])
+        out = c if out is None else c * out
+    if den:
+        d = None
+        for x in den:
+            d = x if d is None else d * x
+        out = out / d
+    return out
+
+
 def _py_floor_div_int(a, b):
     q = z3.If(b > 0, a / b, (-a) / (-b))
     return q
@@ -140,7 +194,7 @@ def scalar_binop(op, a, b):
     if op == "/":
         ra = z3.ToReal(ta) if ka == "int" else ta
         rb = z3.ToReal(tb) if kb == "int" else tb
-        return simp(Sym(ra / rb, "float"))
+        return simp(Sym(norm_muldiv(z3.simplify(ra / rb)), "float"))
     if op == "**":
         return _sym_pow(a, b)
     if ka == "int" and kb == "int":
@@ -162,7 +216,7 @@ def scalar_binop(op, a, b):
     if op == "-":
         return simp(Sym(ra - rb, "float"))
     if op == "*":
-        return simp(Sym(ra * rb, "float"))
+        return simp(Sym(norm_muldiv(z3.simplify(ra * rb)), "float"))
     if op == "//":
         return simp(Sym(z3.ToReal(z3.ToInt(ra / rb)), "float"))
     if op == "%":
